@@ -197,4 +197,110 @@ theorem chainWF_genSpecs (project : List Attr → Factor Rat) (set_order : List 
       obtain ⟨n, hn, han, hun⟩ := hcl.cover a u (hnode a (hPo a ha)) (hnode u (hPo u hu)) hau_adj
       exact ⟨n, hn, hun, han⟩
 
+/-! ### the cliques the loop visits are exactly the model's cliques -/
+
+/-- the attributes `proj ++ [col]` of a step are pairwise adjacent -/
+theorem step_clique (set_order : List Attr → List Attr) (hso : ∀ s, (set_order s).Perm s) (cliques : List Clique)
+    (elimination_order : List Attr) (g : Graph) (hpeo : IsPEO g elimination_order) (hcl : CliquesOf g cliques)
+    (k : Nat) (hk : k < elimination_order.length) :
+    ∀ a ∈ stepProj set_order cliques elimination_order.reverse k ++ [elimination_order.reverse.getD k ""],
+    ∀ b ∈ stepProj set_order cliques elimination_order.reverse k ++ [elimination_order.reverse.getD k ""],
+      a ≠ b → g.adj a b = true := by
+  have hnd : elimination_order.Nodup := hpeo.1
+  set o := elimination_order.reverse with ho
+  have hond : o.Nodup := List.nodup_reverse.2 hnd
+  have hklen : k < o.length := by simpa [ho] using hk
+  have hok : o.getD k "" = o[k] := by
+    rw [List.getD_eq_getElem?_getD, List.getElem?_eq_getElem hklen, Option.getD_some]
+  have hPsub : ∀ a ∈ stepProj set_order cliques o k, a ∈ o.take k := stepProj_sub set_order hso cliques o k
+  have hnotk : ∀ x ∈ o.take k, x ≠ o[k] := by
+    intro x hx e
+    have h1 := idxOf_lt_of_mem_take o hond k x hx
+    rw [e, hond.idxOf_getElem k hklen] at h1
+    omega
+  have hadj : ∀ x ∈ stepProj set_order cliques o k, g.adj o[k] x = true := by
+    intro x hx
+    have hk0 : k ≠ 0 := by
+      intro e
+      rw [e] at hx
+      simp [stepProj] at hx
+    obtain ⟨_, cl, hcl', hc1, hc2⟩ := (mem_stepProj set_order hso cliques o k hk0 x).1 hx
+    exact hcl.clique cl hcl' _ (hok ▸ hc1) _ hc2 (Ne.symm (hnotk x (hPsub x hx)))
+  have hsplit : elimination_order = (o.drop (k + 1)).reverse ++ o[k] :: (o.take k).reverse := by
+    have h1 : o = o.take k ++ o[k] :: o.drop (k + 1) := by
+      rw [List.getElem_cons_drop]; exact (List.take_append_drop k o).symm
+    have h2 : elimination_order = o.reverse := by rw [ho, List.reverse_reverse]
+    rw [h2]
+    conv_lhs => rw [h1]
+    simp
+  intro a ha b hb hab
+  rw [hok] at ha hb
+  rcases List.mem_append.1 ha with ha | ha <;> rcases List.mem_append.1 hb with hb | hb
+  · exact hpeo.2.2 _ _ _ hsplit a (List.mem_reverse.2 (hPsub a ha)) b (List.mem_reverse.2 (hPsub b hb)) hab
+      (hadj a ha) (hadj b hb)
+  · rw [List.mem_singleton.1 hb, adj_symm]; exact hadj a ha
+  · rw [List.mem_singleton.1 ha]; exact hadj b hb
+  · exact absurd ((List.mem_singleton.1 ha).trans (List.mem_singleton.1 hb).symm) hab
+
+/-- the model cliques as MAXIMAL cliques (what `find_cliques` returns) -/
+structure MaxCliquesOf (g : Graph) (cliques : List Clique) : Prop where
+  toCliquesOf : CliquesOf g cliques
+  nonempty : ∀ n ∈ cliques, n ≠ []
+  nodes : ∀ n ∈ cliques, ∀ a ∈ n, a ∈ g.nodes
+  maximal : ∀ n ∈ cliques, ∀ v ∈ g.nodes, v ∉ n → ∃ a ∈ n, g.adj v a = false
+
+theorem MaxCliquesOf.of_family (g : Graph) (nodes cliques : List Clique) (hfam : IsMaxCliqueFamily g nodes)
+    (hmem : ∀ c, c ∈ cliques ↔ c ∈ nodes) : MaxCliquesOf g cliques :=
+  ⟨CliquesOf.of_family g nodes cliques hfam hmem, fun n hn => (hfam.clique n ((hmem n).1 hn)).2,
+    fun n hn => (hfam.clique n ((hmem n).1 hn)).1.2.1, fun n hn => hfam.maximal n ((hmem n).1 hn)⟩
+
+/-- **every model clique is the clique of a step of the column loop** (as a set): the step generating the clique's attribute that
+is eliminated first -/
+theorem clique_is_step (set_order : List Attr → List Attr) (hso : ∀ s, (set_order s).Perm s) (cliques : List Clique)
+    (elimination_order : List Attr) (g : Graph) (hpeo : IsPEO g elimination_order) (hm : MaxCliquesOf g cliques)
+    (cl : Clique) (hcl : cl ∈ cliques) :
+    ∃ k, k < elimination_order.length ∧
+      ∀ a, a ∈ cl ↔ a ∈ stepProj set_order cliques elimination_order.reverse k ++ [elimination_order.reverse.getD k ""] := by
+  have hnd : elimination_order.Nodup := hpeo.1
+  set o := elimination_order.reverse with ho
+  have hond : o.Nodup := List.nodup_reverse.2 hnd
+  have hclo : ∀ a ∈ cl, a ∈ o := fun a ha => List.mem_reverse.2 ((hpeo.2.1 a).1 (hm.nodes cl hcl a ha))
+  set k := (cl.map (fun a => o.idxOf a)).foldl max 0 with hk
+  have hkmem : k ∈ cl.map (fun a => o.idxOf a) := foldl_max_zero_mem _ (by simpa using hm.nonempty cl hcl)
+  obtain ⟨u, hu, huk⟩ := List.mem_map.1 hkmem
+  have hklen : k < o.length := huk ▸ List.idxOf_lt_length_iff.2 (hclo u hu)
+  have hkle : ∀ a ∈ cl, o.idxOf a ≤ k := fun a ha => (foldl_max_ge _ 0).2 _ (List.mem_map.2 ⟨a, ha, rfl⟩)
+  have hoj : o.getD k "" = u := by
+    rw [List.getD_eq_getElem?_getD, List.getElem?_eq_getElem hklen, Option.getD_some]
+    have h2 : o.idxOf u < o.length := List.idxOf_lt_length_iff.2 (hclo u hu)
+    have := List.getElem_idxOf h2
+    simp only [huk] at this
+    exact this
+  have hk' : k < elimination_order.length := by simpa [ho] using hklen
+  have hfwd : ∀ a ∈ cl, a ∈ stepProj set_order cliques o k ++ [o.getD k ""] := by
+    intro a ha
+    rw [hoj, List.mem_append]
+    by_cases hau : a = u
+    · right; rw [hau]; simp
+    · left
+      have hlt : o.idxOf a < k := by
+        have h1 := hkle a ha
+        have h2 : o.idxOf a ≠ k := fun e => hau ((List.idxOf_inj (hclo a ha) (l := o) (y := u)).1 (e.trans huk.symm))
+        omega
+      have hk0 : k ≠ 0 := by omega
+      rw [mem_stepProj set_order hso cliques o k hk0, hoj]
+      exact ⟨mem_take_of_idxOf_lt o k a (hclo a ha) hlt, cl, hcl, hu, ha⟩
+  refine ⟨k, hk', fun a => ⟨hfwd a, fun ha => ?_⟩⟩
+  by_contra hna
+  have hao : a ∈ o := by
+    rcases List.mem_append.1 ha with h | h
+    · exact List.mem_of_mem_take (stepProj_sub set_order hso cliques o k a h)
+    · rw [List.mem_singleton.1 h, hoj]; exact hclo u hu
+  have hanode : a ∈ g.nodes := (hpeo.2.1 a).2 (List.mem_reverse.1 hao)
+  obtain ⟨b, hb, hadj⟩ := hm.maximal cl hcl a hanode hna
+  have hab : a ≠ b := fun e => hna (e ▸ hb)
+  have := step_clique set_order hso cliques elimination_order g hpeo hm.toCliquesOf k hk' a ha b (hfwd b hb) hab
+  rw [hadj] at this
+  cases this
+
 end PGM.GMQGen
